@@ -372,4 +372,103 @@ theorem exec_good : ∀ (ops : List Op) (s : Sys), SysInv s → ExecGood s (s.ex
           · exact r1 v hv
           · rw [← w1]; exact r2 v hv
 
+theorem Tab.del_subset : ∀ (t : Tab) (k x : Nat), x ∈ (t.del k).tois → x ∈ t.tois := by
+  intro t
+  induction t with
+  | nil => intro k x h; exact h
+  | cons a r ih =>
+    intro k x h
+    obtain ⟨k', v'⟩ := a
+    by_cases hk : k' = k
+    · simp only [Tab.del, hk, ↓reduceIte] at h
+      simp only [Tab.tois, List.map_cons, List.mem_cons]
+      exact Or.inr h
+    · simp only [Tab.del, hk, ↓reduceIte, Tab.tois, List.map_cons, List.mem_cons] at h ⊢
+      rcases h with h | h
+      · exact Or.inl h
+      · exact Or.inr (ih k x h)
+
+/-- `n` allocations under the fresh names `i, i+1, …` -/
+def allocsFrom : Nat → Nat → List Op
+  | _, 0 => []
+  | i, n + 1 => .alloc i :: allocsFrom (i + 1) n
+
+/-- as long as a free value remains, `n` successive `allocate_toi` calls all return and make `n`
+    more TOIs live -/
+theorem exec_allocs : ∀ (n i : Nat) (s : Sys), SysInv s → (∀ j, i ≤ j → s.handles.find? j = none) →
+    s.live.length + n + 1 < s.alloc.w.modulus →
+    ∃ s' evs, s.exec (allocsFrom i n) = .ok (s', evs) ∧ SysInv s' ∧ s'.alloc.w = s.alloc.w ∧
+      s'.live.length = s.live.length + n ∧ (∀ j, i + n ≤ j → s'.handles.find? j = none) := by
+  intro n
+  induction n with
+  | zero =>
+    intro i s hi hn _
+    exact ⟨s, [], rfl, hi, rfl, rfl, hn⟩
+  | succ n ih =>
+    intro i s hi hn hlen
+    have hlen' : s.alloc.reserved.length + 2 < s.alloc.w.modulus := by
+      rw [← hi.perm.length_eq]; omega
+    obtain ⟨v, a, ha⟩ := allocate_returns hi.alloc hlen'
+    have hstep : s.step (.alloc i) =
+        .ok ({ s with alloc := a, handles := (i, v) :: s.handles }, .toi v, [.allocated v]) := by
+      simp only [Sys.step, hn i (Nat.le_refl i), ha]
+    obtain ⟨i1, w1, _, _, _⟩ := (step_good hi (.alloc i)).ok _ _ _ hstep
+    have hl1 : ({ s with alloc := a, handles := (i, v) :: s.handles } : Sys).live.length
+        = s.live.length + 1 := by
+      simp [Sys.live, Tab.tois]
+    obtain ⟨s', evs, he, i2, w2, l2, n2⟩ := ih (i + 1)
+      { s with alloc := a, handles := (i, v) :: s.handles } i1
+      (by
+        intro j hj
+        have : ¬ i = j := by omega
+        simp only [Tab.find?, this, ↓reduceIte]
+        exact hn j (by omega))
+      (by rw [hl1, w1]; omega)
+    refine ⟨s', [.allocated v] ++ evs, ?_, i2, by rw [w2, w1], by rw [l2, hl1]; omega, ?_⟩
+    · simp only [allocsFrom, Sys.exec, hstep, he]
+    · intro j hj; exact n2 j (by omega)
+
+/-- the sender state `s` and allocator trace `evs` after the history `ops`, for width `w`,
+    configured start value `cfg` (`none` = random) and random draw `rnd` -/
+def Reaches (w : Width) (cfg : Option Nat) (rnd : Nat) (ops : List Op) (s : Sys) (evs : List Ev) : Prop :=
+  (Sys.init w (initValue cfg rnd)).exec ops = .ok (s, evs)
+
+theorem reaches_good {w cfg rnd ops s evs} (h : Reaches w cfg rnd ops s evs) :
+    SysInv s ∧ s.alloc.w = w ∧ EvsFresh [] evs ∧
+      (∀ v, Ev.allocated v ∈ evs → v < w.modulus) := by
+  have := (exec_good ops _ (init_inv w (initValue cfg rnd))).ok s evs h
+  exact ⟨this.1, this.2.1, this.2.2.1, this.2.2.2.2⟩
+
+theorem alloc_events {s s' : Sys} {h v : Nat} {evs : List Ev}
+    (hs : s.step (.alloc h) = .ok (s', .toi v, evs)) : evs = [.allocated v] := by
+  simp only [Sys.step] at hs
+  split at hs
+  · cases hs
+  · split at hs
+    · cases hs
+    · cases hs
+    · injection hs with hs; injection hs with _ e2; injection e2 with e2 e3
+      injection e2 with e2; subst e2; exact e3.symm
+
+theorem add_events {s s' : Sys} {k v : Nat} {b : Bool} {evs : List Ev}
+    (hs : s.step (.add k b) = .ok (s', .toi v, evs)) : evs = [.allocated v] := by
+  simp only [Sys.step] at hs
+  split at hs
+  · cases hs
+  · split at hs
+    · cases hs
+    · cases hs
+    · cases b with
+      | true =>
+        simp only [↓reduceIte] at hs
+        injection hs with hs; injection hs with _ e2; injection e2 with e2 e3
+        injection e2 with e2; subst e2; exact e3.symm
+      | false =>
+        simp only [Bool.false_eq_true, ↓reduceIte] at hs
+        split at hs
+        · injection hs with hs; injection hs with _ e2; injection e2 with e2 _
+          cases e2
+        · cases hs
+        · cases hs
+
 end Flute.Toi
